@@ -11,7 +11,9 @@ type VarGenerator struct {
 }
 
 func NewVarGenerator() VarGenerator {
-	vs := []string{"x", "y", "z", "p", "q", "r", "s", "t", "u", "v", "w", "a", "b", "c", "d", "e", "f", "g", "h", "i", "j", "k", "l", "m", "n", "o"}
+	// "a" and "n" are not used: the generator pluralises variable names ("as" is a Rego keyword) and
+	// uses "n" as a local variable in the comprehensions it emits
+	vs := []string{"x", "y", "z", "p", "q", "r", "s", "t", "u", "v", "w", "b", "c", "d", "e", "f", "g", "h", "i", "j", "k", "l", "m", "o"}
 	return VarGenerator{
 		vars:    vs,
 		counter: 0,
